@@ -54,7 +54,9 @@ def lexString (inp : List Char) : Option (List Char × List Char) :=
   (surrounded inp).map fun (a, r) => (unescape a, r)
 
 /-! String-bearing positions of a program, as the printer writes them. Each template is
-`prefix ++ quote s ++ suffix`; the fixed prefix contains no quote character. -/
+`pre ++ quote s ++ post` for a fixed prefix and suffix; a position may be placed at top level or inside
+the body of a DEFCAL, DEFCAL MEASURE or DEFCIRCUIT definition (the definition's header and the body
+indentation then belong to the prefix, its trailing newline(s) to the suffix). -/
 
 inductive Pos where
   | pragmaData        -- PRAGMA NAME "s"
@@ -62,6 +64,14 @@ inductive Pos where
   | frameIdent        -- PULSE 0 "s" w   (frame identifier name)
   | delayFrame        -- DELAY 0 "s" 1
   | frameAttr         -- DEFFRAME 0 "f":\n    DIRECTION: "s"
+  deriving DecidableEq, Repr
+
+/-- Where the string-bearing instruction sits. -/
+inductive Place where
+  | top
+  | defcal            -- DEFCAL X 0:\n    <instruction>
+  | defcalMeasure     -- DEFCAL MEASURE 0 addr:\n\t<instruction>\n
+  | defcircuit        -- DEFCIRCUIT C:\n    <instruction>\n
   deriving DecidableEq, Repr
 
 def Pos.pre : Pos → List Char
@@ -78,13 +88,38 @@ def Pos.post : Pos → List Char
   | .delayFrame => " 1".toList
   | .frameAttr => []
 
-/-- What the printer writes for a program holding `s` at position `p`. -/
-def printAt (p : Pos) (s : List Char) : List Char := p.pre ++ quote s ++ p.post
+def Place.pre : Place → List Char
+  | .top => []
+  | .defcal => "DEFCAL X 0:\n    ".toList
+  | .defcalMeasure => "DEFCAL MEASURE 0 addr:\n\t".toList
+  | .defcircuit => "DEFCIRCUIT C:\n    ".toList
+
+def Place.post : Place → List Char
+  | .top => []
+  | .defcal => []
+  | .defcalMeasure => "\n".toList
+  | .defcircuit => "\n".toList
+
+/-- A printing template: fixed text before and after the quoted string. -/
+structure Template where
+  pre : List Char
+  post : List Char
+
+def template (pl : Place) (p : Pos) : Template :=
+  { pre := pl.pre ++ p.pre, post := p.post ++ pl.post }
+
+/-- What the printer writes for a string `s` in template `t`. -/
+def Template.print (t : Template) (s : List Char) : List Char := t.pre ++ quote s ++ t.post
 
 /-- Read the string back: skip the fixed prefix, lex a string, require the fixed suffix. -/
-def readAt (p : Pos) (text : List Char) : Option (List Char) :=
-  match lexString (text.drop p.pre.length) with
-  | some (s, rest) => if rest = p.post then some s else none
+def Template.read (t : Template) (text : List Char) : Option (List Char) :=
+  match lexString (text.drop t.pre.length) with
+  | some (s, rest) => if rest = t.post then some s else none
   | none => none
+
+/-- What the printer writes for a program holding `s` at position `p` (top level). -/
+def printAt (p : Pos) (s : List Char) : List Char := (template .top p).print s
+
+def readAt (p : Pos) (text : List Char) : Option (List Char) := (template .top p).read text
 
 end QV.C07
